@@ -339,4 +339,9 @@ pub struct StoreMeta {
 #[doc(hidden)]
 pub mod verif_hooks {
     pub use super::free_list::verif_hooks as free_list;
+
+    /// `grow(file, page)`: extends the file and returns the new boundary.
+    pub fn grow(file: &std::fs::File, page: u32) -> std::io::Result<u32> {
+        super::grow(file, super::PageNumber(page)).map(|pn| pn.0)
+    }
 }
